@@ -143,6 +143,83 @@ def _header_of(F, b, operand, site_block):
     return site_block
 
 
+def _region_of_iter(F, b, e, depth=0):
+    """Which part of the underlying slice does an iterator expression walk?  ('suffix', start expr) | ('whole',) |
+    ('range', lo, hi) | ('prefix', n) | None (not recognised)."""
+    if depth > 12 or not isinstance(e, tuple):
+        return None
+    if e[0] == "call":
+        n, args = e[1], e[2]
+        if n.endswith("IntoIterator::into_iter") or n.endswith("Iterator::by_ref") or n.endswith("Iterator::enumerate") or n.endswith("Iterator::rev"):
+            return _region_of_iter(F, b, args[0], depth + 1) if args else None
+        if n.endswith("Iterator::skip") and len(args) == 2:
+            inner = _region_of_iter(F, b, args[0], depth + 1)
+            if inner == ("whole",):
+                return ("suffix", args[1])
+            return None
+        if n.endswith("Iterator::take") and len(args) == 2:
+            return ("prefix", args[1])
+        if n.endswith("::iter_mut") or n.endswith("::iter"):
+            return _region_of_slice(F, b, args[0], depth + 1) if args else None
+        if n.endswith("Iterator::zip"):
+            return None
+    return None
+
+
+def _region_of_slice(F, b, e, depth=0):
+    if depth > 12 or not isinstance(e, tuple):
+        return None
+    if e[0] == "call":
+        n, args = e[1], e[2]
+        if (n.endswith("Index::index") or n.endswith("IndexMut::index_mut")) and len(args) == 2:
+            rg = args[1]
+            base = _region_of_slice(F, b, args[0], depth + 1)
+            if rg[0] == "agg" and base == ("whole",):
+                if rg[1].startswith("std::ops::RangeFrom") and len(rg[2]) == 1:
+                    return ("suffix", rg[2][0])
+                if rg[1].startswith("std::ops::RangeFull"):
+                    return ("whole",)
+                if rg[1].startswith("std::ops::RangeTo") and len(rg[2]) == 1:
+                    return ("prefix", rg[2][0])
+                if rg[1].startswith("std::ops::Range") and len(rg[2]) == 2:
+                    return ("range", rg[2][0], rg[2][1])
+            return None
+        if any(n.endswith(s_) for s_ in ("Deref::deref", "DerefMut::deref_mut", "::as_mut_slice", "::as_slice", "BorrowMut::borrow_mut", "AsMut::as_mut")) and args:
+            return _region_of_slice(F, b, args[0], depth + 1)
+        return None
+    if e[0] == "field":
+        base, path = e[1], e[2]
+        if base[0] == "call" and "split_at" in base[1] and len(base[2]) == 2 and path == (("f", 1),):
+            inner = _region_of_slice(F, b, base[2][0], depth + 1)
+            if inner == ("whole",):
+                return ("suffix", base[2][1])
+            return None
+        # a named slice value (parameter, split part 0, ...) walked as a whole
+        return ("whole",)
+    if e[0] in ("param", "multi"):
+        return ("whole",)
+    return None
+
+
+def _is_signal_len(F, b, e, depth=0):
+    """Is the expression the length of the transform / of a data buffer: `x.len()` of a slice that is not derived from the
+    scratch, `self.len()`, a field of self?  (Anything containing arithmetic is not.)"""
+    if depth > 6 or not isinstance(e, tuple):
+        return False
+    if e[0] == "call":
+        n, args = e[1], e[2]
+        if n.endswith("<impl [T]>::len") and len(args) == 1:
+            return True
+        if n == "Length::len" or n.endswith("::len") and len(args) == 1 and args[0] == ("param", 1):
+            return True
+        return False
+    if e[0] == "field" and e[1] == ("param", 1):
+        return True
+    if e[0] == "cast":
+        return _is_signal_len(F, b, e[3], depth + 1)
+    return False
+
+
 class ZeroStores:
     def __init__(self, F):
         self.F = F
@@ -164,30 +241,46 @@ class ZeroStores:
                 proj = p[1:]
                 if proj == ["d"]:
                     o = origin(F, b, {"p": [p[0]]})
-                    out.append((o, _header_of(F, b, {"p": [p[0]]}, bi), bi, n))
+                    region = None
+                    rr = b.root({"p": [p[0]]})
+                    if rr[0] == "field" and rr[1][0] == "call" and rr[1][2]["args"]:
+                        cc = F.callee_of(rr[1][2])
+                        if cc and cc["p"].endswith("Iterator::next"):
+                            region = _region_of_iter(F, b, b.expr(rr[1][2]["args"][0], rich=True))
+                    out.append((o, _header_of(F, b, {"p": [p[0]]}, bi), bi, n, region))
                 else:
                     idx = [e for e in proj if isinstance(e, list) and e[0] == "i"]
                     if idx:
                         o = origin(F, b, {"p": [p[0]]})
-                        out.append((o, _header_of(F, b, {"p": [idx[0][1]]}, bi), bi, n))
+                        out.append((o, _header_of(F, b, {"p": [idx[0][1]]}, bi), bi, n, None))
             elif n["k"] == "call":
                 c = F.callee_of(n)
                 if not c:
                     continue
                 name = c["p"]
                 if name.endswith("<impl [T]>::fill") and len(n["args"]) == 2 and _is_zero(F, b, n["args"][1]):
-                    out.append((origin(F, b, n["args"][0]), bi, bi, n))
+                    out.append((origin(F, b, n["args"][0]), bi, bi, n, _region_of_slice(F, b, b.expr(n["args"][0], rich=True))))
+                    continue
+                if name.endswith("write_bytes") and len(n["args"]) == 3:
+                    # memset(ptr, 0, n): for C08 (f32/f64) the all-zero bit pattern is zero; whether that is legitimate for
+                    # an arbitrary element type is C14's business (R-RINGOPS rawbytes)
+                    v = b.root(n["args"][1])
+                    if v[0] == "const" and v[1].get("v") == 0:
+                        pr = b.root(n["args"][0])
+                        if pr[0] == "call" and pr[2]["args"]:
+                            out.append((origin(F, b, pr[2]["args"][0]), bi, bi, n, _region_of_slice(F, b, b.expr(pr[2]["args"][0], rich=True))))
                     continue
                 info = self.K.access_info(b, n)
                 if info is not None and info[1].startswith("store") and len(n["args"]) >= 3 and _is_zero(F, b, n["args"][1]):
-                    out.append((origin(F, b, n["args"][0]), _header_of(F, b, n["args"][-1], bi), bi, n))
+                    out.append((origin(F, b, n["args"][0]), _header_of(F, b, n["args"][-1], bi), bi, n, None))
                     continue
                 if c.get("local"):
                     g = F.bodies.get(c.get("res", c["id"]))
                     if g is not None and g.kind != "Closure":
-                        for k in self.zero_params(g):
+                        for k, greg in self.zero_params(g).items():
                             if k - 1 < len(n["args"]):
-                                out.append((origin(F, b, n["args"][k - 1]), bi, bi, n))
+                                reg = _region_of_slice(F, b, b.expr(n["args"][k - 1], rich=True)) if greg == ("whole",) else None
+                                out.append((origin(F, b, n["args"][k - 1]), bi, bi, n, reg))
         self._sites[b.id] = out
         return out
 
@@ -196,14 +289,15 @@ class ZeroStores:
         if g.id in self._summ:
             return self._summ[g.id]
         if g.id in self._busy:
-            return set()
+            return {}
         self._busy.add(g.id)
-        res = set()
+        res = {}
         rets = [bi for bi, bb in enumerate(g.blocks) if bb["t"]["k"] == "return"]
         dom = g.dominators()
-        for (o, hdr, sb, n) in self.sites(g):
+        for (o, hdr, sb, n, reg) in self.sites(g):
             if o[0] == "param" and rets and all(hdr in dom.get(r, set()) for r in rets):
-                res.add(o[1])
+                if o[1] not in res or reg == ("whole",):
+                    res[o[1]] = reg
         self._busy.discard(g.id)
         self._summ[g.id] = res
         return res
@@ -249,7 +343,15 @@ def r_zerofill(F, cfg):
                 buf = origin(F, b, t["args"][data_i])
                 ok = [z for z in zs if z[0] == buf and z[1] in dom.get(bi, set())]
                 if ok:
-                    R.ok({"fn": b.name, "inner_call": m, "buffer": _fmt(buf), "zero_fill_at": b.where(ok[0][3])}, nontrivial=True)
+                    regs = [z[4] for z in ok]
+                    full = [r for r in regs if r == ("whole",) or (r and r[0] == "suffix" and _is_signal_len(F, b, r[1]))]
+                    if all(r is not None for r in regs) and not full:
+                        R.violation("zerofill-extent:%s" % b.name, b.where(ok[0][3]),
+                                    "%s clears only part of the padding of %s before the inner FFT (%s): no zero fill runs from the end of the signal to the end of the buffer, so stale scratch reaches the convolution"
+                                    % (b.name, _fmt(buf), "; ".join(_fmt_region(r) for r in regs)))
+                        continue
+                    R.ok({"fn": b.name, "inner_call": m, "buffer": _fmt(buf), "zero_fill_at": b.where(ok[0][3]),
+                          "extent": _fmt_region(full[0]) if full else "not decided (vectorised / indexed fill)"}, nontrivial=True)
                 else:
                     near = [z for z in zs if z[0] == buf]
                     R.violation("zerofill:%s" % b.name, b.where(t),
@@ -257,6 +359,21 @@ def r_zerofill(F, cfg):
                                 % (b.name, _fmt(buf), " (a zero store exists but does not lie on every path)" if near else ""))
     R.metric("bluestein_kernels_with_inner_call", n_fn)
     return R
+
+
+def _fmt_region(r):
+    if r is None:
+        return "unrecognised"
+    if r[0] == "whole":
+        return "whole buffer"
+    from .kbound import _expr_key
+    if r[0] == "suffix":
+        return "[%s..]" % _expr_key(r[1])
+    if r[0] == "range":
+        return "[%s..%s]" % (_expr_key(r[1]), _expr_key(r[2]))
+    if r[0] == "prefix":
+        return "[..%s]" % _expr_key(r[1])
+    return str(r[0])
 
 
 def _fmt(o):
@@ -287,6 +404,7 @@ class Taint:
         self.F = F
         self.K = kb_for(F)
         self.req = defaultdict(list)     # (adt) -> [(kind K of the entry, inner field path, inner kind, where)]
+        self.sites = defaultdict(list)   # (adt) -> [(entry kind, receiver origin, inner kind, where, fn name, body, terminator)]
         self._seen = set()
 
     def derived(self, b, o, tainted):
@@ -328,6 +446,7 @@ class Taint:
                     if self.derived(b, so, tainted):
                         ro = origin(F, b, t["args"][0])
                         self.req[adt].append((entry_kind, ro, kind, b.where(t), b.name))
+                        self.sites[adt].append((entry_kind, ro, kind, b.where(t), b.name, b, t))
                 continue
             if not c.get("local"):
                 continue
@@ -385,6 +504,14 @@ class Taint:
 
 
 def _advertised_mentions(F, imp, getter):
+    memo = F.__dict__.setdefault("_adv_memo", {})
+    key = (imp["id"], getter)
+    if key not in memo:
+        memo[key] = _advertised_mentions_uncached(F, imp, getter)
+    return memo[key]
+
+
+def _advertised_mentions_uncached(F, imp, getter):
     """Set of (receiver description, kind) of the inner-getter calls the advertised length depends on, following the
     getter to the field it returns and that field to its initialisers in the constructors; plus the inner-getter calls
     that a constructor consults in a panicking guard (`assert!(inner.get_inplace_scratch_len() <= len)`), which bound
@@ -480,23 +607,56 @@ def _advertised_mentions(F, imp, getter):
     return mentions
 
 
+def _adt_literals(F):
+    """adt path -> [(body, aggregate statement)] for every struct literal in the crate (computed once)."""
+    memo = F.__dict__.get("_adt_lit_memo")
+    if memo is None:
+        from .inline import inlined
+        fft_adts = {F.impl_self_adt(i) for i in F.trait_impls("Fft")}
+        memo = defaultdict(list)
+        for b in F.bodies.values():
+            if b.kind == "Closure":
+                continue
+            hits = [n for bi, si, n in b.iter_nodes() if n["k"] == "=" and n["r"]["k"] == "agg" and n["r"].get("ak") == "adt"]
+            if not hits:
+                continue
+            body = b
+            if any(n["r"].get("adt") in fft_adts for n in hits):
+                # constructors are judged with their private helpers merged in (scratch arithmetic hoisted into a helper)
+                body = inlined(F, b, _ctor_pred, rounds=2, max_blocks=1500)
+                hits = [n for bi, si, n in body.iter_nodes() if n["k"] == "=" and n["r"]["k"] == "agg" and n["r"].get("ak") == "adt"]
+            for n in hits:
+                memo[n["r"].get("adt")].append((body, n))
+        F.__dict__["_adt_lit_memo"] = memo
+    return memo
+
+
+def _ctor_pred(g):
+    """Helpers worth merging into a constructor: closures and small crate-private functions that are not twiddle
+    generators and not constructors themselves."""
+    if g.kind == "Closure":
+        return len(g.blocks) <= 60
+    if g.r.get("reachable") or g.r.get("pub") or "trait" in g.r:
+        return False
+    if g.name.startswith("twiddles::") or g.r.get("ident", "").startswith("new"):
+        return False
+    return len(g.blocks) <= 60
+
+
 def _constructors(F, adt):
-    out = []
-    for b in F.bodies.values():
-        for bi, si, n in b.iter_nodes():
-            if n["k"] == "=" and n["r"]["k"] == "agg" and n["r"].get("ak") == "adt" and n["r"].get("adt") == adt:
-                out.append(b)
-                break
-    return out
+    seen = []
+    for (b, n) in _adt_literals(F).get(adt, []):
+        if b not in seen:
+            seen.append(b)
+    return seen
 
 
 def _field_initialisers(F, adt, path):
     """[(constructor body, operand)] initialising self.<path> in every struct literal of `adt`."""
     out = []
     found = False
-    for b in F.bodies.values():
-        for bi, si, n in b.iter_nodes():
-            if n["k"] == "=" and n["r"]["k"] == "agg" and n["r"].get("ak") == "adt" and n["r"].get("adt") == adt:
+    for (b, n) in _adt_literals(F).get(adt, []):
+            if True:
                 found = True
                 node = n["r"]
                 cur = None
